@@ -23,7 +23,10 @@ pub fn patterns_of(category: &str) -> &'static [&'static str] {
     }
 }
 
-const NAME_PARTS: [&str; 24] = [
+const NAME_PARTS: [&str; 38] = [
+    "{line}", "{file}", "{}", "{0}", "%s", "$1", "\\1", "\u{202E}", "\u{2066}", "\u{2069}", "\u{200B}", "\u{FEFF}",
+    "a-name-part-of-sixty-characters-to-build-very-long-file-names",
+    "a-name-part-of-one-hundred-and-twenty-characters-to-build-file-names-that-are-as-long-as-file-systems-allow-them-to-be-ok",
     "Token", "Vault", "a", "b", "x y", "weird:name", "- dash", "#hash", "`tick`", "### Lines", "## High Risk", "## Low Risk", "合约", "é",
     "A.sol:12", "- A.sol:3", "..", "Token.sol", "  ", "(Total Optimizations 7)", "- ", ":", "\t", "0",
 ];
@@ -68,7 +71,9 @@ pub fn gen_entries(rng: &Rng, max_files: usize) -> Entries {
             continue;
         }
         let name = hostile_name(rng);
+        // mostly a few lines per file; now and then dozens, rarely hundreds (more than 250)
         let k = rng.range(1, if rng.chance(1, 10) { 30 } else { 5 });
+        let k = if rng.chance(1, 60) { rng.range(251, 1200) } else { k };
         let lines: BTreeSet<i32> = (0..k)
             .map(|_| match rng.below(40) {
                 0 => rng.range(1, 99999) as i32,
@@ -98,6 +103,20 @@ pub fn gen_map(rng: &Rng, category: &str, mask: u64, max_files: usize) -> Vec<(&
             // "any number of files per pattern" includes none: the pattern is a key of the map but has no finding
             v.push((*p, vec![]));
         }
+    }
+    v
+}
+
+/// one pattern with `total` entries: `total / per_file` files of `per_file` lines each (plus a last shorter one)
+pub fn gen_huge_entries(total: usize, per_file: usize) -> Entries {
+    let mut v: Entries = vec![];
+    let mut left = total;
+    let mut i = 0;
+    while left > 0 {
+        let n = per_file.min(left);
+        v.push((format!("Big{:05}.sol", i), (1..=n as i32).collect()));
+        left -= n;
+        i += 1;
     }
     v
 }
@@ -331,6 +350,26 @@ pub fn run(ctx: &Ctx) -> i32 {
         }
     });
     meta.exhaustive_subspaces.push("all 15 non-empty subsets of the vulnerability patterns and all 7 of the QA patterns (as pattern sets; multiplicities random)".into());
+    // very long lists: more than 2^16 entries in a part, more than 64 KiB / 1 MiB of entries under one pattern
+    let sizes = [65_535usize, 65_536, 65_537, 80_000, 3_000, 140_000];
+    run_workload(ctx, &mut acc, "huge-maps", (sizes.len() * 3 * 2) as u64, |k, rng, acc| {
+        let category = ["optimizations", "vulnerabilities", "qa"][(k % 3) as usize];
+        let total = sizes[((k / 3) as usize) % sizes.len()];
+        let per_file = if (k / 18) % 2 == 0 { 10 } else { 400 };
+        let pats = patterns_of(category);
+        let p0 = pats[rng.below(pats.len())];
+        let mut m: Vec<(&'static str, Entries)> = vec![(p0, gen_huge_entries(total, per_file))];
+        // a small neighbour pattern before or after it
+        let p1 = pats[rng.below(pats.len())];
+        if p1 != p0 {
+            m.push((p1, vec![("Small.sol".to_string(), [3, 9].into_iter().collect())]));
+        }
+        let order: Vec<usize> = (0..m.len()).collect();
+        let text = report::render_category(category, &m, &order, 0);
+        check_roundtrip(category, &m, &text, &table, acc);
+        acc.cov(&format!("huge-maps:{}-entries", total));
+        acc.nontrivial_h(hash_str(&format!("huge{}{}{}", category, total, per_file)));
+    });
 
     // whole-file round trip through generate_report (helper process, private cwd)
     let nfile = ctx.tier.pick(80u64, 20000u64);
